@@ -6,8 +6,51 @@ import vlib
 from vlib import cz, cn, clist, cbool
 
 # ------------------------------------------------------------------ stores
-def make_store(rng, nested=True, attrdict=False):
+# keys of dict containers beyond plain identifiers.  "strings": characters that need escaping in the
+# printed form of a reference (dump(), mk_fun source); "exotic": key TYPES (negative/big ints, floats, tuples,
+# None, bool, numpy integers, IntEnum members) in the tagged encoding decoded by tools/impl/manager_runner.py.
+# Within a pool no two keys are equal as Python objects (no aliasing of dict slots).
+KEY_POOLS = {
+    "strings": ["it's", 'dq"uote', "back\\slash", "a\\x41", "tab\there", "new\nline", "sp ace", "\u00e9\u221a", "{br}", "[0]", "",
+                "a.b", "'", "\\", "\\n", "%s", "k" * 40, "c['a']", "\x7f", "#", "a=b", "\r"],
+    "exotic": ["\x01np:3", "\x01np:4", "\x01np:5", "\x01enum:6", "\x01enum:7", "\x01enum:8", -1, 100, 2 ** 70, "\x01f:0.5",
+               "\x01f:1e+300", "\x01tup:[1, 2]", "\x01tup:[\"a\", 1]", "\x01tup:[]", "\x01none", "\x01bool:1", "\x01np8:9",
+               "it's", "back\\slash"],
+}
+
+
+def rename_keys(rng, spec, leaves, conts, pool, p_rename=0.6):
+    """renames keys of the dict containers under label "c" (attribute names must stay identifiers)"""
+    mapping = {}
+
+    def walk(node, prefix):
+        if node["kind"] == "dict":
+            names = [k for k, _ in node["items"]]
+            new = rng.sample(pool, min(len(pool), len(names)))
+            mapping[prefix] = {k: n for k, n in zip(names, new) if rng.random() < p_rename}
+        for k, v in node["items"]:
+            if isinstance(v, dict):
+                walk(v, prefix + (k,))
+        if node["kind"] == "dict":
+            node["items"] = [[mapping[prefix].get(k, k), v] for k, v in node["items"]]
+    for label, node in spec:
+        if label == "c":
+            walk(node, (label,))
+
+    def rp(p):
+        out, prefix = [p[0]], (p[0],)
+        for kind, key in p[1:]:
+            out.append([kind, mapping.get(prefix, {}).get(key, key)])
+            prefix += (key,)
+        return out
+    return spec, [rp(p) for p in leaves], [rp(p) for p in conts]
+
+
+def make_store(rng, nested=True, attrdict=False, keys=None):
     """returns (spec, leaves, containers).  spec: [[label, node]...]"""
+    if keys:
+        spec, leaves, conts = make_store(rng, nested, attrdict)
+        return rename_keys(rng, spec, leaves, conts, KEY_POOLS[keys])
     def leafs(names):
         return [[k, rng.randint(-9, 9)] for k in names]
     kn = rng.choice(["dict", "obj"])
@@ -49,31 +92,45 @@ def gen_expr(rng, pool, conts, depth=0):
     return ["bin", rng.choice("+-*"), gen_expr(rng, pool, conts, depth + 1), gen_expr(rng, pool, conts, depth + 1)]
 
 
-def gen_history(rng, profile="mixed", nops=None, nofun=False, attrdict=False):
-    nested = profile not in ("flat", "assign_flat")
-    spec, leaves, conts = make_store(rng, nested, attrdict)
+FAULT_KINDS = ["Fault"] * 6 + ["StopIteration", "StopIteration", "KeyError", "ValueError", "AttributeError", "TypeError",
+                                "ZeroDivisionError", "RecursionError", "BaseFault", "GeneratorExit", "StopAsyncIteration"]
+
+
+def gen_history(rng, profile="mixed", nops=None, nofun=False, attrdict=False, keys="auto"):
+    """keys: None | "strings" | "exotic" | "auto" (one history in four uses the "strings" pool)"""
+    if keys == "auto":
+        keys = "strings" if rng.random() < 0.25 else None
+    nested = profile not in ("flat", "assign_flat") and not (profile == "windows" and rng.random() < 0.5)
+    spec, leaves, conts = make_store(rng, nested, attrdict, keys)
     rank = list(leaves)
     rng.shuffle(rank)
+    hot = rank[:3]            # "windows": a few low-ranked locations that are assigned again and again
     pos = {json.dumps(p): i for i, p in enumerate(rank)}
     nops = nops or rng.randint(3, 14)
     ops = []
     funs = 0
     frozen = False
-    p_cyc = 0.0 if profile in ("flat", "dag", "assign", "assign_flat") else 0.06
+    p_cyc = 0.0 if profile in ("flat", "dag", "assign", "assign_flat", "windows") else 0.06
     for _ in range(nops):
         k = rng.random()
         t = rng.choice(leaves)
         lower = [p for p in leaves if pos[json.dumps(p)] < pos[json.dumps(t)]]
-        pool = leaves if (rng.random() < p_cyc or not lower) and profile not in ("flat", "dag", "assign", "assign_flat") else (lower or None)
-        if profile == "frozen" and rng.random() < 0.12:
-            frozen = not frozen
-            ops.append(["freeze"] if frozen else ["unfreeze"])
+        pool = leaves if (rng.random() < p_cyc or not lower) and profile not in ("flat", "dag", "assign", "assign_flat", "windows") else (lower or None)
+        if profile in ("frozen", "windows") and rng.random() < (0.12 if profile == "frozen" else 0.2):
+            if rng.random() < 0.2:
+                ops.append(["freeze"] if frozen else ["unfreeze"])      # unbalanced: freeze when frozen, unfreeze when not
+            else:
+                frozen = not frozen
+                ops.append(["freeze"] if frozen else ["unfreeze"])
+            continue
+        if profile == "windows" and rng.random() < 0.35:
+            ops.append(["set", rng.choice(hot), ["plain", rng.randint(-9, 9)]])
             continue
         if profile == "fault" and rng.random() < 0.3:
             t2 = rng.choice(leaves)
             val = rng.randint(-9, 9)
             for _rep in range(rng.choice([1, 1, 1, 2, 3])):          # several faulty updates in a row
-                ops.append(["arm", rng.choice([0, 0, 1, 1, 2, 2, 3, 4, 6])])
+                ops.append(["arm", rng.choice([0, 0, 1, 1, 2, 2, 3, 4, 6]), rng.choice(FAULT_KINDS)])
                 ops.append(["set", t2, ["plain", val]])
             ops.append(["disarm"])
             if rng.random() < 0.85:
@@ -112,7 +169,7 @@ def gen_history(rng, profile="mixed", nops=None, nofun=False, attrdict=False):
             tg = [p for p in leaves if p != pool[0]][:]
             rng.shuffle(tg)
             ops.append(["regknob", f"kn{funs}", pool[0], [[rng.randint(1, 3), p] for p in tg[:rng.randint(1, 3)]]])
-        elif k < 0.95 and pool:
+        elif k < 0.95 and pool and keys != "exotic":        # numpy / enum keys do not print as loadable text
             ops.append(["load", [[t, gen_expr(rng, pool, [])], [rng.choice(leaves), gen_expr(rng, pool, [])]], rng.random() < 0.6])
         elif k < 0.97:
             ops.append([rng.choice(["refresh", "verify", "cleanup"])])
